@@ -167,6 +167,11 @@ func (s *session) recover() (err error) {
 			return errors.SetFd(err, fd)
 		}
 
+		// A record that does not decode completely is skipped as a whole:
+		// remember the fields decode sets as it goes.
+		hasRec, comparer := rec.hasRec, rec.comparer
+		journalNum, prevJournalNum := rec.journalNum, rec.prevJournalNum
+		nextFileNum, seqNum := rec.nextFileNum, rec.seqNum
 		err = rec.decode(r)
 		if err == nil {
 			// save compact pointers
@@ -181,6 +186,9 @@ func (s *session) recover() (err error) {
 				return
 			}
 			s.logf("manifest error: %v (skipped)", errors.SetFd(err, fd))
+			rec.hasRec, rec.comparer = hasRec, comparer
+			rec.journalNum, rec.prevJournalNum = journalNum, prevJournalNum
+			rec.nextFileNum, rec.seqNum = nextFileNum, seqNum
 		}
 		rec.resetCompPtrs()
 		rec.resetAddedTables()
